@@ -18,7 +18,7 @@ for d in sorted(glob.glob(os.path.join(V, 'seeded', '*', 'meta.json'))):
     elif 'MISSED' in sall or 'first run exit' in sall: tally['after'] += 1
     else: tally['first'] += 1
 SUMMARY = ('### 7.0 Summary\n\n%d genuine defects of the pinned tree were found by the checks and repaired in /repo (7.1).  %d seeded changes were produced in rounds '
-           '(suffix a, b, c) by sub-agents that saw only the property text (and, from round b on, a list of the earlier changes to avoid): %d were reported as VIOLATION by the '
+           '(suffix a, b, c, d; round d only for C02, C04, C14, C16, C17, the properties with the most first-run misses before) by sub-agents that saw only the property text (and, from round b on, a list of the earlier changes to avoid): %d were reported as VIOLATION by the '
            'registered quick command at the first run, %d were missed at first and are caught since the harness or the driver was strengthened (the "checks" column says what was missing), '
            '%d cannot be decided with this technique in this image (iostream formatting inside libstdc++.so, floating point, thread interleavings) and are listed as such.  '
            'Recurring blind spots that the rounds removed: arguments aliasing the container/operand they are applied to, self-assignment, by-value and throwing user callbacks, '
@@ -29,11 +29,20 @@ txt = B + '\n\n' + 'SUMMARY_PLACEHOLDER' + '### 7.1 Genuine defects found on the
       '\n\n### 7.2 Seeded changes (written by independent sub-agents from the property text only) and which check catches them\n\n' \
       'Every change below compiles, passes the whole existing suite (433/433, confirmed in a scratch worktree with `seeded/confirm.sh`) and makes its own demonstration fail. ' \
       '"checks" is the outcome of the registered quick commands run against `/repo` with the patch applied (`seeded/runchecks.sh`).\n\n' \
-      '| id | property | change | needs | checks |\n|---|---|---|---|---|\n' + '\n'.join(rows) + '\n\n' + E
+      '| id | property | change | needs | checks |\n|---|---|---|---|---|\n' + '\n'.join(rows) + '\n\n' + 'NEUTRAL_PLACEHOLDER' + E
+nrows = []
+for d in sorted(glob.glob(os.path.join(V, 'seeded_neutral', '*', 'meta.json'))):
+    m = json.load(open(d)); sid = os.path.basename(os.path.dirname(d))
+    nrows.append('| %s | %s | %s | %s |' % (sid, cell(m.get('summary', '')), cell(m.get('why_equivalent', '')), cell('; '.join('%s: %s' % kv for kv in m.get('checks_run', {}).items()))))
 nfix = len(set(f.get('commit') for f in kf['findings'] if f.get('status') == 'fixed'))
 SUMMARY = SUMMARY.replace('0 genuine defects', '%d genuine defects' % nfix, 1).replace('0 seeded changes', '%d seeded changes' % sum(tally.values()), 1)
 SUMMARY = SUMMARY.replace(': 0 were reported', ': %d were reported' % tally['first'], 1).replace('first run, 0 were missed', 'first run, %d were missed' % tally['after'], 1).replace('missing), 0 cannot', 'missing), %d cannot' % tally['outside'], 1)
 txt = txt.replace('SUMMARY_PLACEHOLDER', SUMMARY)
+NEUTRAL = ('### 7.3 Behaviour-preserving changes (no alarm expected)\n\nOne refactoring per property, written by sub-agents that saw only the property text and were asked for changes a maintainer '
+           'would commit that keep every observable behaviour (loop <-> algorithm call, merged/split detail functions, negated conditions, equivalent arithmetic, renamed privates).  '
+           'Expected outcome of the quick command: exit 0.  %d of %d gave exit 0 at the first run; none produced a VIOLATION line.\n\n'
+           '| id | change | why equivalent (author) | checks |\n|---|---|---|---|\n' % (sum(1 for r in nrows if 'first run exit 2' not in r), len(nrows))) + '\n'.join(nrows) + '\n\n'
+txt = txt.replace('NEUTRAL_PLACEHOLDER', NEUTRAL if nrows else '')
 p = os.path.join(V, 'DESIGN.md'); s = open(p).read()
 if B in s: s = s[:s.index(B)] + txt + s[s.index(E) + len(E):]
 else: s = s.rstrip('\n') + '\n\n## 7. Results: defects found, seeded changes detected\n\n' + txt + '\n'
